@@ -667,25 +667,35 @@ def labels_verbatim(ctx, rep, rule):
     names = {f.name for f in getters}
     hooks = ('text_label', 'graph_label')
 
-    def verbatim(t):
-        if t[0] == 'const':
-            return True
-        if T.is_attr(t, 'label') and t[1] == T.SELF:
-            return True
-        if t[0] == 'mcall' and t[1] == T.SELF and (t[2] in hooks or t[2] in names or t[2] == 'repr_id'):
-            return True
-        if t[0] == 'fmt':
-            return all(verbatim(x) for x in t[1])
-        if t[0] == 'binop' and t[1] == 'Add':
-            return verbatim(t[2]) and verbatim(t[3])
-        return False
+    TRANSFORMS = ('join', 'split', 'splitlines', 'replace', 'strip', 'lstrip', 'rstrip', 'upper', 'lower', 'title',
+                  'capitalize', 'casefold', 'swapcase', 'translate', 'expandtabs', 'encode', 'decode', 'center',
+                  'ljust', 'rjust', 'zfill', 'partition', 'rpartition', 'removeprefix', 'removesuffix', 'format_map')
+
+    def from_user(t):
+        return T.mentions(t, lambda x: (T.is_attr(x, 'label') and x[1] == T.SELF) or
+                          (x[0] == 'mcall' and x[1] == T.SELF and (x[2] in hooks or x[2] in names)) or
+                          x[0] in ('unk', 'elem', 'item'))
+
+    def altered(t):
+        """positive evidence that the user's text is transformed on its way out (a deny-list: what cannot be
+        read - a getter chosen from a table of callables, say - is not reported)"""
+        for x in T.subterms(t):
+            if x[0] == 'mcall' and x[2] in TRANSFORMS and (from_user(x[1]) or any(from_user(a) for a in x[3])):
+                return "`.%s()` applied to the label" % x[2]
+            if x[0] == 'sub' and from_user(x[1]) and x[2][0] in ('slice', 'const'):
+                return "the label is sliced / indexed"
+            if x[0] == 'call' and x[1] in ('repr', 'ascii', 'textwrap.shorten', 'textwrap.fill', 'shorten') \
+                    and any(from_user(a) for a in x[2]):
+                return "`%s()` applied to the label" % x[1]
+        return None
     n = 0
     for f in getters:
         an, ip, out = ctx.explore(f, model=GraphModel, no_inline=tuple(names) + hooks)
         for st, val, node in out.ret:
             n += 1
-            rep.check(verbatim(val), rule, "%s returns the user's text unmodified" % ip.where(node), f.qualname,
-                      "`%s` returns %s" % (src(node)[:80], T.show(val, 5)[:160]),
+            why = altered(val)
+            rep.check(why is None, rule, "%s returns the user's text unmodified" % ip.where(node), f.qualname,
+                      "`%s`: %s (%s)" % (src(node)[:80], why, T.show(val, 5)[:120]),
                       "the label that is drawn or listed is not the label the user gave (characters dropped, "
                       "replaced or re-flowed)", trace(st))
     rep.need(rule + ":returns", n, 3, "returns of the label getters")
